@@ -19,10 +19,13 @@ Definition hexval (c : Z) : option Z :=
   else if (65 <=? c) && (c <=? 70) then Some (c - 55)
   else None.
 
+(* linear-time reverse (List.rev is quadratic; frame-sized tokens go through here) *)
+Definition frev {A} (l : list A) : list A := rev_append l [].
+
 Fixpoint split_sp (cs : list Z) (cur : list Z) (acc : list (list Z)) : list (list Z) :=
   match cs with
-  | [] => rev (if cur then acc else rev cur :: acc)
-  | c :: r => if c =? 32 then split_sp r [] (if cur then acc else rev cur :: acc)
+  | [] => frev (if cur then acc else frev cur :: acc)
+  | c :: r => if c =? 32 then split_sp r [] (if cur then acc else frev cur :: acc)
               else split_sp r (c :: cur) acc
   end.
 
@@ -43,7 +46,7 @@ Fixpoint hex_group (k : nat) (cs : list Z) (acc : Z) : option (Z * list Z) :=
 
 Fixpoint hex_groups (fuel : nat) (k : nat) (cs : list Z) (acc : list Z) : option (list Z) :=
   match cs with
-  | [] => Some (rev acc)
+  | [] => Some (frev acc)
   | _ => match fuel with
          | O => None
          | S f => match hex_group k cs 0 with
